@@ -1,9 +1,9 @@
 package rules
 
 import (
-	"regexp"
 	"go/token"
 	"go/types"
+	"regexp"
 
 	"golang.org/x/tools/go/ssa"
 
@@ -52,3 +52,64 @@ func invokeSites(fn *ssa.Function) []invokeSite {
 
 // siteRE matches the call-site suffix of printed call terms.
 var siteRE = regexp.MustCompile(`@[0-9]+`)
+
+type collWrite struct {
+	field, method string
+	pos           token.Pos
+}
+
+// collectionWrites lists calls of mutating methods (Set, Remove, Clear, Push, Next) of cosmossdk.io/collections
+// types whose receiver is a field of a struct (k.Field.Set(...)), in fn and its closures.
+func collectionWrites(fn *ssa.Function) []collWrite {
+	var out []collWrite
+	mut := map[string]bool{"Set": true, "Remove": true, "Clear": true, "Push": true, "Next": true}
+	var walk func(f *ssa.Function)
+	walk = func(f *ssa.Function) {
+		for _, b := range f.Blocks {
+			for _, ins := range b.Instrs {
+				ci, ok := ins.(ssa.CallInstruction)
+				if !ok {
+					continue
+				}
+				g := ci.Common().StaticCallee()
+				if g == nil || g.Signature.Recv() == nil || !mut[g.Name()] {
+					continue
+				}
+				q := calleeQName(g)
+				if len(q) < 22 || q[:22] != "cosmossdk.io/collectio" {
+					if o := g.Origin(); o == nil || o.Pkg == nil || o.Pkg.Pkg.Path() != "cosmossdk.io/collections" {
+						continue
+					}
+				}
+				if len(ci.Common().Args) == 0 {
+					continue
+				}
+				if fld := fieldOf(ci.Common().Args[0]); fld != "" {
+					out = append(out, collWrite{field: fld, method: g.Name(), pos: ins.Pos()})
+				}
+			}
+		}
+		for _, an := range f.AnonFuncs {
+			walk(an)
+		}
+	}
+	walk(fn)
+	return out
+}
+
+// fieldOf: the value is (a load of) a struct field; returns the field name.
+func fieldOf(v ssa.Value) string {
+	switch v := v.(type) {
+	case *ssa.UnOp:
+		return fieldOf(v.X)
+	case *ssa.FieldAddr:
+		if st, ok := derefType(v.X.Type()).Underlying().(*types.Struct); ok {
+			return st.Field(v.Field).Name()
+		}
+	case *ssa.Field:
+		if st, ok := v.X.Type().Underlying().(*types.Struct); ok {
+			return st.Field(v.Field).Name()
+		}
+	}
+	return ""
+}
